@@ -262,7 +262,15 @@ func C12(tier common.Tier) int {
 					if len(h) == depth {
 						return
 					}
-					for _, b := range alpha {
+					for bi, b := range alpha {
+						// the third declaration comes from a reduced alphabet (every 7th element): 3 declarations x 193
+						// transformations over the full alphabet would be ~10^8 runs
+						if len(h) == 2 && bi%7 != 0 {
+							continue
+						}
+						if len(h) == 2 && (len(h[0].Stmts) > 0 && h[0].Stmts[0] != core[0] || len(h[1].Stmts) > 0 && h[1].Stmts[0] != core[0]) {
+							continue
+						}
 						nh := append(append([]e1.UseBlock(nil), h...), b)
 						if !e1.ValidUseHistory(nh) {
 							continue
